@@ -72,9 +72,11 @@ func ParseOne
       result0.Source == trimS(p0(p0(old(reader.rem)[a:b], ";"), "(")) &&
       result0.Target == trimS(p1(p1(p0(old(reader.rem)[a:b], ";"), "("), ")")))
   ensures result1 == nil ==> (exists a int, b int :: 0 <= a && a < b && b <= len(old(reader.rem)) &&
-      (forall k int :: 0 <= k && k < a ==> isblk(old(reader.rem)[k])) &&
-      result0.Version.Epoch == vepoch(hdrVer(old(reader.rem)[a:b])) &&
-      result0.Version.Version == vupstream(hdrVer(old(reader.rem)[a:b])) && result0.Version.Revision == vrevision(hdrVer(old(reader.rem)[a:b])))
+      (forall k int :: 0 <= k && k < a ==> isblk(old(reader.rem)[k])) && result0.Version.Epoch == vepoch(hdrVer(old(reader.rem)[a:b])))
+  ensures result1 == nil ==> (exists a int, b int :: 0 <= a && a < b && b <= len(old(reader.rem)) &&
+      (forall k int :: 0 <= k && k < a ==> isblk(old(reader.rem)[k])) && result0.Version.Version == vupstream(hdrVer(old(reader.rem)[a:b])))
+  ensures result1 == nil ==> (exists a int, b int :: 0 <= a && a < b && b <= len(old(reader.rem)) &&
+      (forall k int :: 0 <= k && k < a ==> isblk(old(reader.rem)[k])) && result0.Version.Revision == vrevision(hdrVer(old(reader.rem)[a:b])))
   // the maintainer is what stands between the "--" and the first double blank of the trailer line " -- ..."
   ensures result1 == nil ==> (exists c int, d int :: 0 <= c && c < d && d <= len(old(reader.rem)) && hasPrefix(old(reader.rem)[c:d], " -- ") &&
       result0.ChangedBy == trimS(p0(p1(old(reader.rem)[c:d], "--"), "  ")))
